@@ -588,6 +588,10 @@ def draw_op(draw, S: GState, P: dict):
             op["initial_target"] = tgt
             if len(tgt) == 1 and draw(st.booleans()):
                 op["it_scalar"] = True
+        elif cs["addr"] == "Global" and draw(st.integers(0, 7)) == 0:
+            # accepted and ignored on a global channel
+            op["initial_target"] = _qsel(draw, S, 1, 1)
+            op["it_scalar"] = draw(st.booleans())
         ok_mode = (cs["kind"] == "Microwave" and not S.ising) or (cs["kind"] != "Microwave" and not S.xy)
         if ok_mode and (S.reusable() or cid not in S.used_cids) and name not in [c["name"] for c in S.declared]:
             S.declared.append(dict(name=name, cs=cs, dmm=False, eom=False,
